@@ -237,6 +237,10 @@ def r1(ctx, cfg, R="C14.R1"):
             conds = q.dominating_conditions(P, f, bid)
             existed = any(c[0] == "variant_in" and c[2] in (("Continue",), ("Ok",)) and peel(c[1])[0] == "call" and peel(c[1])[1] == "cw_storage_plus::Map::load" and
                           peel(peel(c[1])[2][0]) == STAKES and same_origin(peel(c[1])[2][2], key_o) for e, c in conds)
+            # (an entry that was found under this key and is written back modified - may_load(key)?.expect(..), change a field,
+            # save(key) - is an update of an existing entry just like STAKES.update(key, ..): rules/stakes.py)
+            from rules import stakes
+            existed = existed or any(u.form == "load-save" and u.site == (f.key, bid) for u in stakes.entry_updates(P, F, f))
             ins = {b for b, tt in staker_set_calls(P, f, ("insert",))}
             saves = {b for b, tt in store_calls(P, f, VINFO, ("save",))}
             paired = bool(ins) and not any(r in cf.reachable_from(bid, avoid=list(ins | errs)) for r in cf.return_blocks()) and \
